@@ -4,20 +4,32 @@
 WT=${1:-/repo}
 cd $WT || exit 2
 export CARGO_NET_OFFLINE=true CARGO_TARGET_DIR=${CARGO_TARGET_DIR:-$WT/target}
-rm -f $CARGO_TARGET_DIR/nextest/pb/junit.xml
-cargo nextest run --workspace --no-fail-fast --tool-config-file pb:/w/lib/nextest.toml --profile pb --test-threads 8 --offline > $WT/.suite.log 2>&1
 J=$CARGO_TARGET_DIR/nextest/pb/junit.xml
-[ -f $J ] || { echo "RESULT FAIL no junit (build error?)"; tail -5 $WT/.suite.log; exit 1; }
-python3 - "$J" <<'PY'
+: > $WT/.suite.passed
+# the integration tests (fixed ports, /tmp/dbs, wall-clock thresholds) flake on a loaded machine: like the baseline
+# itself (3 runs), a test counts as passing when it passes in one of up to 3 runs
+for attempt in 1 2 3; do
+  rm -f $J
+  cargo nextest run --workspace --no-fail-fast --tool-config-file pb:/w/lib/nextest.toml --profile pb --test-threads ${SUITE_THREADS:-8} --offline > $WT/.suite.log 2>&1
+  [ -f $J ] || { echo "RESULT FAIL no junit (build error?)"; tail -5 $WT/.suite.log; exit 1; }
+  python3 - "$J" "$WT/.suite.passed" <<'PY'
 import sys, json, xml.etree.ElementTree as ET
-stable = set(json.load(open('/root/.vp/BASELINE.json'))['stable_pass'])
-ok = set()
+ok = set(l.strip() for l in open(sys.argv[2]))
 for tc in ET.parse(sys.argv[1]).getroot().iter('testcase'):
     if tc.find('failure') is None and tc.find('error') is None and tc.find('skipped') is None:
         cn = tc.get('classname'); nm = tc.get('name')
-        ok.add(f"{cn}::{nm}"); ok.add(nm)
-        ok.add(f"{cn.split('::')[0]}::{nm}")
+        ok.add(f"{cn}::{nm}"); ok.add(nm); ok.add(f"{cn.split('::')[0]}::{nm}")
+open(sys.argv[2],'w').write("\n".join(sorted(ok)))
+PY
+  res=$(python3 - "$WT/.suite.passed" <<'PY'
+import sys, json
+stable = set(json.load(open('/root/.vp/BASELINE.json'))['stable_pass'])
+ok = set(l.strip() for l in open(sys.argv[1]))
 missing = [t for t in stable if t not in ok]
 print("RESULT OK %d stable passed" % len(stable) if not missing else "RESULT FAIL " + " ".join(sorted(missing)[:8]))
-sys.exit(0 if not missing else 1)
 PY
+)
+  case "$res" in "RESULT OK"*) echo "$res (attempt $attempt)"; exit 0;; esac
+done
+echo "$res"
+exit 1
